@@ -967,6 +967,24 @@ class Interp:
                         return ('ctor', OK, recv[2]) if recv[1] == SOME else ('ctor', ERR, (self.apply(args[0], []),))
                     if name == 'is_some' and not args:
                         return recv[1] == SOME
+                if name == 'transpose' and not args and recv[1] in (OK, ERR, SOME, NONE):
+                    # Option<Result<T, E>> <-> Result<Option<T>, E>
+                    if recv[1] == NONE:
+                        return ('ctor', OK, (('ctor', NONE),))
+                    if recv[1] == ERR:
+                        return ('ctor', SOME, (recv,))
+                    inner = recv[2][0]
+                    if isinstance(inner, tuple) and len(inner) >= 2 and inner[0] == 'ctor':
+                        if recv[1] == SOME and inner[1] == OK:
+                            return ('ctor', OK, (('ctor', SOME, inner[2]),))
+                        if recv[1] == SOME and inner[1] == ERR:
+                            return inner
+                        if recv[1] == OK and inner[1] == SOME:
+                            return ('ctor', SOME, (('ctor', OK, inner[2]),))
+                        if recv[1] == OK and inner[1] == NONE:
+                            return ('ctor', NONE)
+                    if isinstance(inner, tuple) and inner and inner[0] in ('rec', 'opaque'):
+                        return inner
                 if name in ('unwrap', 'expect') and recv[1] in (OK, ERR, SOME, NONE):
                     if recv[1] in (OK, SOME):
                         return recv[2][0]
